@@ -104,7 +104,22 @@ func runC02(r *ev.Run) {
 			}
 			return toListing(res)
 		}
+		var held *heldSearch
 		probe := func() {
+			// one long-lived search object per case (fixed nprobes / efSearch), re-configured and executed while the index
+			// changes under it, compared with a fresh object given the same setter calls
+			if held == nil || rng.IntN(8) == 0 {
+				ho := s.genProbeOpts(rng)
+				held = newHeldSearch(func() comet.VectorSearch { return s.search(ho) })
+				hq := vg.query()
+				held.step("WithQuery", func(x comet.VectorSearch) comet.VectorSearch { return x.WithQuery(cloneF32(hq)) })
+			} else {
+				heldSearchStep(rng, held, vg.query(), m.liveIDs(), len(m.live))
+			}
+			if !held.compare(rep, kind) {
+				held = nil
+			}
+			r.Count("probes:held-search-object", 1)
 			nq := 1 + rng.IntN(3)
 			for qi := 0; qi < nq; qi++ {
 				q := vg.query()
